@@ -42,6 +42,7 @@ FIXED = [
     ('D2io', ['C18', 'C17', 'C09'], 'a timed socket io reports its timeout also if the timer fired before', 'timed socket I/O: add_io_timer arms the timer before io_data.co.store(co); subscribing thread delayed >= the timeout in between with the selector on another worker: the timer fires into the empty slot, the time-out is lost, the operation blocks for ever (class io_timer_fired_before_publish; was a known finding until the repair)'),
     ('D29', ['C18', 'C09', 'C17'], 'cancelling a timed socket io disarms its timer', 'cancel of a coroutine blocked in a timed recv on a shared socket (Arc<UdpSocket>): the timer of the cancelled operation stays armed and fails a later operation on that socket with TimedOut long before its own time-out (iocant: "recv #0 with a 14ms time-out failed with TimedOut after 3.1ms")'),
     ('D30', ['C16', 'C14', 'C13'], 'Cqueue::poll re-checks the count of select coroutines after registering', 'poll(None) (select!, the drain of Cqueue::drop) sleeps for ever: the poller consumed the final event of the last select coroutine before that one decremented the count, saw queue empty + count != 0, and the decrement + wake-up fell between its look at the count and its registration (thorough cq, ~1 in 150 000 executions; 3 of 1.1 M in the first thorough sweep)'),
+    ('D31', ['C18', 'C17'], 'an io timer entry only times out the operation it was armed for', 'the io timeout handler takes whatever coroutine is blocked on the socket when it gets there: a handler that loses the cpu between its validity check and co.take() (or an entry that fires late) fails a *later* operation with TimedOut long before its deadline once its own operation ended on another thread meanwhile (fast_schedule, cancel, and since the D2io repair subscribe itself): "read timeout of 5000us fired after 760us". Raised by a fresh-restore quick run of C18 (4-entry random plan), 4 of 4 handshake shards within 90-405 executions, 73 000 clean after the repair'),
 ]
 
 KNOWN = [
